@@ -25,6 +25,8 @@ pub enum Idx {
     AsSigned,
     /// the signature keeps only the first half of its won indexes (still a valid signature)
     InnerSubset,
+    /// the signature keeps only the second half of its won indexes (the complement of `InnerSubset`)
+    InnerComplement,
     /// the announced index list claims other indexes than the signature carries
     AnnouncedAltered,
     /// an index that was not won is added inside the signature (invalid)
@@ -127,6 +129,15 @@ async fn build_signature(w: &World, epoch: u64, msg: &mithril_common::entities::
         Idx::AsSigned | Idx::NextEpochRegistration | Idx::OtherMessage => {}
         Idx::InnerSubset => {
             let keep: Vec<u64> = sig.won_indexes[..sig.won_indexes.len().div_ceil(2)].to_vec();
+            let mut p = sig.to_protocol_signature();
+            p.set_concatenation_signature_indices(&keep);
+            sig = SingleSignature::new(sig.party_id.clone(), p.into(), keep);
+        }
+        Idx::InnerComplement => {
+            let keep: Vec<u64> = sig.won_indexes[sig.won_indexes.len().div_ceil(2)..].to_vec();
+            if keep.is_empty() {
+                return None;
+            }
             let mut p = sig.to_protocol_signature();
             p.set_concatenation_signature_indices(&keep);
             sig = SingleSignature::new(sig.party_id.clone(), p.into(), keep);
@@ -350,7 +361,7 @@ fn replay_inner(scratch: &std::path::Path, start: Start, subs: &[Sub]) -> RunRes
                 }
             };
             let ok = answer == "http-201" || answer == "http-202" || answer == "queue-ok";
-            let is_valid_own = s.by == s.label && matches!(s.idx, Idx::AsSigned | Idx::InnerSubset | Idx::AnnouncedAltered);
+            let is_valid_own = s.by == s.label && matches!(s.idx, Idx::AsSigned | Idx::InnerSubset | Idx::InnerComplement | Idx::AnnouncedAltered);
             let ctx = json!({"replay": replay_json, "step": n, "submission": s, "answer": answer});
             // a mismatching label must be answered with a rejection (HTTP; the queue path has no
             // answer channel: there the store is what counts)
@@ -645,6 +656,19 @@ pub fn run(ctx: &Ctx) -> ! {
         jobs.push((Start::NotYetOpen, all.clone()));
         jobs.push((Start::Open, all));
         replays += 2;
+    }
+    // restricted copies of one party's signature in every order (a recorded contribution never loses an index)
+    {
+        let kinds = [Idx::AsSigned, Idx::InnerSubset, Idx::InnerComplement];
+        for a in kinds {
+            for b in kinds {
+                for c in kinds {
+                    let s: Vec<Sub> = [a, b, c].iter().map(|i| Sub { by: 0, label: 0, idx: *i, route: Route::Http }).collect();
+                    jobs.push((Start::Open, s[..2].to_vec()));
+                    jobs.push((Start::Open, s));
+                }
+            }
+        }
     }
     rep.extra("histories_with_a_replayed_signature_on_another_message", json!(replays));
     rep.extra("histories_in_the_nested_party_id_world", json!(nested));
